@@ -11,6 +11,9 @@ for l in open('/verif/properties.jsonl'):
         prop = "%s — %s\n\nStatement: %s\n\nQuantifier: %s\n" % (p['id'], p['title'], p['statement'], p['quantifier']['text'])
 t = open('/verif/tools/seed_prompt.txt').read()
 t = t.replace('PROPERTYTEXT', prop).replace('WORKTREE', '/tmp/seedwt-%s' % tag).replace('OUTDIR', '/tmp/seedout-%s' % tag)
+import os
+if os.environ.get('SEED_HINT'):
+    t = t.replace('Verify all of 1-4 yourself', 'ADDITIONAL GUIDANCE: ' + os.environ['SEED_HINT'] + '\n\nVerify all of 1-4 yourself')
 open('/tmp/seedout-%s/PROMPT.txt' % tag, 'w').write(t)
 PY
 echo "/tmp/seedout-$tag/PROMPT.txt"
